@@ -332,7 +332,7 @@ func (e *Env) tier1StreamFactory(rr *reqRun) service.StreamFactoryFunc {
 			rr.obs = traceObs{}
 		}
 		rr.res.HandoffAt = uint64(startBlockNum)
-		return &simStream{env: e, node: rr.node, h: h, pipe: pipe, start: uint64(startBlockNum), stop: stopBlockNum, finalMax: rr.spec.Final, obs: rr.obs}, nil
+		return &simStream{env: e, node: rr.node, h: h, pipe: pipe, start: uint64(startBlockNum), stop: stopBlockNum, finalMax: rr.spec.Final, obs: rr.obs, finalOnly: finalBlocksOnly}, nil
 	}
 }
 
